@@ -75,7 +75,7 @@ func c05DocCond(r *rand.Rand, values val.Item) *refmodel.Cond {
 		return refmodel.Operand{Kind: "path", Path: p}
 	}
 	eq := func() string { return mon.Pick(r, []string{"=", "<>"}) }
-	switch r.Intn(18) {
+	switch r.Intn(21) {
 	case 0:
 		return &refmodel.Cond{Op: "cmp", Cmp: eq(), Args: []refmodel.Operand{pt("flags", r.Intn(3)), nv(val.Bool(r.Intn(2) == 0))}}
 	case 1:
@@ -112,6 +112,14 @@ func c05DocCond(r *rand.Rand, values val.Item) *refmodel.Cond {
 		return &refmodel.Cond{Op: "in", Args: []refmodel.Operand{nv(val.Num(fmt.Sprint(r.Intn(8)))), pt("lo"), pt("hi"), pt("v")}}
 	case 16:
 		return &refmodel.Cond{Op: "cmp", Cmp: mon.Pick(r, []string{"<", "<=", "=", ">"}), Args: []refmodel.Operand{pt("lo"), pt("v")}}
+	// guards on a whole number set (the booked slots): the supplied set lists the members in another order and
+	// writes them in another notation than the stored one
+	case 17:
+		return &refmodel.Cond{Op: "cmp", Cmp: eq(), Args: []refmodel.Operand{pt("slots"), nv(mon.Pick(r, []val.V{val.NS("2", "1.0"), val.NS("1e0", "2.00"), val.NS("1", "3"), val.NS("1")}))}}
+	case 18:
+		return &refmodel.Cond{Op: "not", Kids: []*refmodel.Cond{{Op: "cmp", Cmp: "=", Args: []refmodel.Operand{pt("slots"), nv(mon.Pick(r, []val.V{val.NS("2.0", "1"), val.NS("2", "4")}))}}}}
+	case 19:
+		return &refmodel.Cond{Op: "in", Args: []refmodel.Operand{pt("slots"), nv(val.NS("9")), nv(mon.Pick(r, []val.V{val.NS("1.00", "2"), val.NS("1", "2", "3")}))}}
 	default:
 		return &refmodel.Cond{Op: "cmp", Cmp: eq(), Args: []refmodel.Operand{pt("cfg", "tags"), nv(val.SS("t1", "t2"))}}
 	}
@@ -119,6 +127,9 @@ func c05DocCond(r *rand.Rand, values val.Item) *refmodel.Cond {
 
 // c05Doc adds the document attributes the guards of c05DocCond look at.
 func c05Doc(r *rand.Rand, it val.Item) {
+	if r.Intn(3) != 0 {
+		it["slots"] = mon.Pick(r, []val.V{val.NS("1", "2"), val.NS("2", "1"), val.NS("1", "3"), val.NS("1")})
+	}
 	if r.Intn(4) != 0 {
 		lo := r.Intn(4)
 		it["lo"] = val.Num(fmt.Sprint(lo))
